@@ -66,7 +66,8 @@ class AbstractDenseTimeOnlineInterpreter(AbstractOnlineInterpreter, DenseTimeInt
     def set_variable_to_ast_from_dataset(self, dataset):
         for data in dataset:
             var_name = data[0]
-            var_object = data[1]
+            # the operations buffer samples between calls: they get their own copies, the lists stay the caller's
+            var_object = [list(sample) for sample in data[1]]
             if data[0] in self.ast.free_vars:
                 self.ast.var_object_dict[var_name] = var_object
                 if var_name in self.online_operator_dict:
